@@ -190,6 +190,11 @@ pub fn stmts(tier: Tier) -> Vec<String> {
         "x = if .c == true { 1 }", "if .c == true { x = null } else if .a == 1 { x = 2.5 }", "if .c == true { x.b = \"n\" }",
         "if .c == true { . = {\"z\": 1} }", "if .c == true { del(.a[0]) }", "if .c == true { .a[-1] = null }", "if is_string(.a) { x = .a } else { x = 0 }",
         "if .c == true { y = x } else { y = .a }",
+        // an assignment used as a sub-expression of a composite whose other children read the same variable
+        "y = [x, (x = 4)]", "y = 10 / ((x = 0) + x)", "y = {\"k\": x, \"j\": (x = \"n\")}", "y = [x, (x = 4)][0]", "y = (x = 2) * x", "y = [(x = 0), x, (x = 7)]",
+        // diverging expressions that touch the target themselves, inside nested blocks
+        "if .c == true { return .a }", "if .c == true { .b = 1; return .b }", "if .c == true { return . } else { .b = 2; return .b }", "if .c == true { { .b = 1; return %m } }",
+        "for_each([1]) -> |_i, _v| { if .c == true { return .a } }", "x = (.c == true || { return .b })",
         // predicates that are blocks with assignments of their own, overwritten (or not) by the branch
         "if (x = \"s\"; .c == true) { x = 1 }", "if (.b = \"p\"; .c == true) { .b = 1 }", "y = if (x = 1; .c == true) { x = \"t\"; 2 }", "if (x = [1]; .c == true) { x = {} } else { y = x }",
         "if (x = null; .c != true) { x = 2.5 } else if (y = 0; .a == 1) { y = \"e\" }",
